@@ -28,8 +28,9 @@ PY = '/venv/bin/python'
 MUTANTS = []
 
 
-def M(mid, prop, path, old, new, note=''):
-    MUTANTS.append({'id': mid, 'prop': prop, 'file': path, 'old': old, 'new': new, 'note': note})
+def M(mid, prop, path, old, new, note='', nth=None):
+    """nth=None: `old` must occur exactly once.  nth=k (1-based): replace the k-th occurrence."""
+    MUTANTS.append({'id': mid, 'prop': prop, 'file': path, 'old': old, 'new': new, 'note': note, 'nth': nth})
 
 
 # ---- C01 -------------------------------------------------------------------
@@ -116,16 +117,73 @@ M('M06.15', 'C06', 'atomman/core/System.py',
   "            elif safecopy:\n                atoms = deepcopy(atoms)\n", "            elif safecopy and atoms.natoms > 4:\n                atoms = deepcopy(atoms)\n",
   'System(safecopy=True) skips the copy for small systems')
 
+# ---- C15 -------------------------------------------------------------------
+M('M15.1', 'C15', 'atomman/defect/point.py', "d_system = System(box=deepcopy(system.box), pbc=deepcopy(system.pbc),",
+  "d_system = System(box=system.box, pbc=deepcopy(system.pbc),", 'vacancy result shares the input Box', nth=1)
+M('M15.2', 'C15', 'atomman/defect/point.py', "    if 'old_id' not in d_system.atoms_prop():\n        d_system.atoms.old_id = index",
+  "    if True:\n        d_system.atoms.old_id = index", 'vacancy always rewrites old_id (map does not compose)', nth=1)
+M('M15.3', 'C15', 'atomman/defect/point.py', "        if ptd_id < 0:\n            ptd_id += system.natoms\n        if ptd_id < 0 or ptd_id >= system.natoms:",
+  "        if ptd_id < -system.natoms or ptd_id >= system.natoms:", 'substitutional: negative ptd_id not normalised', nth=2)
+M('M15.4', 'C15', 'atomman/defect/point.py',
+  "dist = np.linalg.norm(np.atleast_2d(system.dvect(np.asarray(pos, dtype=float), system.atoms.pos)), axis=1)",
+  "dist = np.linalg.norm(np.atleast_2d(system.atoms.pos - np.asarray(pos, dtype=float)), axis=1)",
+  'interstitial occupied-site test ignores periodic images', nth=2)
+M('M15.5', 'C15', 'atomman/defect/point.py', "    index.pop(ptd_id)\n    index.append(ptd_id)\n    \n    # Build new system",
+  "    index[ptd_id], index[-1] = index[-1], index[ptd_id]\n    \n    # Build new system",
+  'substitutional swaps with the last atom instead of moving to the end (order of others changes)')
+M('M15.6', 'C15', 'atomman/defect/point.py',
+  "db_vect = np.asarray(db_vect, dtype=float).dot(system.box.vects)", "db_vect = system.box.position_relative_to_cartesian(db_vect)",
+  'revert of the dumbbell origin fix')
+M('M15.7', 'C15', 'atomman/defect/point.py',
+  "d_system.atoms.atype[-1] = kwargs.pop('atype', 1)", "d_system.atoms.atype[-1] = kwargs.pop('atype', d_system.atoms.atype[-1])",
+  'interstitial default type is that of atom 0, not 1')
+M('M15.8', 'C15', 'atomman/defect/point.py',
+  "            d_system.atoms.pos[-2] -= db_vect\n            d_system.atoms.pos[-1] += db_vect",
+  "            d_system.atoms.pos[-2] += db_vect\n            d_system.atoms.pos[-1] -= db_vect", 'dumbbell signs swapped')
+M('M15.9', 'C15', 'atomman/defect/point.py', "        if len(ptd_id) == 1 and len(ptd_id[0]) == 1:",
+  "        if len(ptd_id) == 1 and len(ptd_id[0]) >= 1:", 'vacancy accepts an ambiguous site (takes the first match)', nth=1)
+M('M15.10', 'C15', 'atomman/defect/point.py', "    index.append(ptd_id)\n    index.append(ptd_id)\n",
+  "    index.append(ptd_id)\n    index.append(ptd_id)\n    system.atoms.pos[ptd_id] += 1e-13\n", 'dumbbell nudges the input system by 1e-13')
+M('M15.11', 'C15', 'atomman/defect/point.py',
+  "dist = np.linalg.norm(np.atleast_2d(system.dvect(np.asarray(pos, dtype=float), system.atoms.pos)), axis=1)",
+  "dist = np.linalg.norm(system.dvect(np.asarray(pos, dtype=float), system.atoms.pos), axis=1)", 'revert of one-atom fix (dumbbell)', nth=4)
+M('M15.12', 'C15', 'atomman/defect/point.py',
+  "dist = np.linalg.norm(np.atleast_2d(system.dvect(np.asarray(pos, dtype=float), system.atoms.pos)), axis=1)",
+  "dist = np.linalg.norm(np.atleast_2d(system.dvect(pos, system.atoms.pos)), axis=1)", 'revert of integer-pos fix (vacancy)', nth=1)
+M('M15.13', 'C15', 'atomman/defect/point.py',
+  "d_system.atoms.view[prop][-1] = kwargs.pop(prop,\n                                                       np.zeros_like(d_system.atoms.view[prop][-1]))",
+  "d_system.atoms.view[prop][-1] = kwargs.pop(prop,\n                                                       d_system.atoms.view[prop][-1])",
+  'interstitial: unspecified properties copied from atom 0 instead of zero')
+M('M15.14', 'C15', 'atomman/defect/point.py', "        return vacancy(system, pos=pos, ptd_id=ptd_id, scale=scale, atol=atol)",
+  "        return vacancy(system, pos=pos, ptd_id=ptd_id, scale=scale)", 'point() drops atol for vacancies')
+
+
+def _flex(old):
+    """Regex for `old` that tolerates trailing blanks and whitespace-only lines."""
+    import re
+    parts = []
+    for line in old.split('\n'):
+        parts.append(re.escape(line.rstrip()) + r'[ \t]*')
+    return re.compile('\n'.join(parts))
+
 
 def apply_edit(root, m):
     p = os.path.join(root, m['file'])
     with open(p) as f:
         s = f.read()
-    n = s.count(m['old'])
-    if n != 1:
-        raise RuntimeError('%s: pattern occurs %d times in %s' % (m['id'], n, m['file']))
+    rx = _flex(m['old'])
+    found = list(rx.finditer(s))
+    nth = m.get('nth')
+    if nth is None:
+        if len(found) != 1:
+            raise RuntimeError('%s: pattern occurs %d times in %s' % (m['id'], len(found), m['file']))
+        hit = found[0]
+    else:
+        if len(found) < nth:
+            raise RuntimeError('%s: pattern occurs %d times in %s, wanted #%d' % (m['id'], len(found), m['file'], nth))
+        hit = found[nth - 1]
     with open(p, 'w') as f:
-        f.write(s.replace(m['old'], m['new']))
+        f.write(s[:hit.start()] + m['new'] + s[hit.end():])
 
 
 def make_copy():
